@@ -14,7 +14,10 @@ RULE = ("schedules (lists of thread ids) replayed against the real handler throu
         "kind (missing path, unreadable file, missing validation key, ReloadTimeout expired on full and partial reloads) on "
         "a sample of the interleavings, each followed by a fresh query; named shapes on cdb and RocksDB v2/v1 keys (query "
         "across a catch-up, validation failure after catch-up, timed-out catch-up, partial reload after a switch and after a "
-        "failed switch, blocked acquisition while the write lock is held, switch back to an updated path); -n seeded random "
+        "failed switch, blocked acquisition while the write lock is held, switch back to an updated path; with the response "
+        "cache ENABLED: the same stamped questions (MX, located A, NXDOMAIN) before and after a successful partial reload and "
+        "after a full reload naming the served path, next to a never-asked question, sequentially and with queries parked "
+        "across the reload at 'acquired' / 'before_write', on cdb and both RocksDB key layouts); -n seeded random "
         "schedules of 2 queries x 2 reloads (+ on-disk updates, blocked probes) on cdb and a few on RocksDB; thorough adds "
         "RocksDB exhaustive samples and 3 queries x 2 reloads; non-trivial = distinct (class, backend, schedule) with a reload "
         "step between two steps of a query")
@@ -212,12 +215,14 @@ def _catchups(c, a):
     fulls = sorted((a["done"][t], x.get("path", 0)) for t, x in enumerate(th)
                    if x["kind"] == "r" and x.get("full") and t in a["done"] and relerr[t] == "ok")
     for t, x in enumerate(th):
-        if x["kind"] != "r" or t not in a["second"] or x.get("full"):
-            continue   # (the generators never name the served path in a full reload)
+        if x["kind"] != "r" or t not in a["second"]:
+            continue
         path = c["p0"]
         for dn, p in fulls:
             if dn < a["first"][t]:
                 path = p
+        if x.get("full") and x.get("path", 0) != path:
+            continue   # a switch to another path opens a new backend; naming the served path is a catch-up
         at = a["second"][t] if relerr[t] != "timeout" else a["done"].get(t, a["second"][t])
         f = disk_at(at).get(path)
         stamp = f["stamp"] if f else None
